@@ -429,8 +429,11 @@ func writeComputedFieldExpression(w *formatting.IndentedWriter, expression dsl.E
 		case *dsl.BinaryExpression:
 			tail.Run(func() {
 				requiresParentheses := false
-				if l, ok := t.Left.(*dsl.BinaryExpression); ok && l.Operator.Precedence() < t.Operator.Precedence() {
-					requiresParentheses = true
+				switch l := t.Left.(type) {
+				case *dsl.BinaryExpression:
+					requiresParentheses = l.Operator.Precedence() < t.Operator.Precedence() || t.Operator == dsl.BinaryOpPow
+				case *dsl.UnaryExpression:
+					requiresParentheses = t.Operator == dsl.BinaryOpPow
 				}
 
 				if requiresParentheses {
@@ -461,7 +464,7 @@ func writeComputedFieldExpression(w *formatting.IndentedWriter, expression dsl.E
 				w.WriteString(" ")
 
 				requiresParentheses = false
-				if r, ok := t.Right.(*dsl.BinaryExpression); ok && r.Operator.Precedence() < t.Operator.Precedence() {
+				if r, ok := t.Right.(*dsl.BinaryExpression); ok && r.Operator.Precedence() <= t.Operator.Precedence() {
 					requiresParentheses = true
 				}
 
